@@ -428,6 +428,12 @@ func (g *gen) list(pool, bad []string, star bool, maxLen int, badPct int) []stri
 // config generates a Config; validPct is the probability of aiming at an accepted one.
 func (g *gen) config(validPct int) cors.Config {
 	valid := g.p(validPct)
+	// a share of the rejected configurations carries exactly one defect, at a random position of a
+	// random list (also behind a `*`): acceptance then hinges on that single entry being reported
+	single := !valid && g.p(45)
+	if single {
+		valid = true
+	}
 	badPct := 12
 	if valid {
 		badPct = 0
@@ -482,7 +488,52 @@ func (g *gen) config(validPct int) cors.Config {
 		c.MaxAgeInSeconds = pick(g, []int{0, -1, -2, 1, 30, 86400, 86401, -100, 1 << 40, -(1 << 40)})
 		c.PreflightSuccessStatus = pick(g, []int{0, 200, 204, 299, 199, 300, -1, 456, 1 << 33, 100, 404})
 	}
+	if single {
+		g.injectDefect(&c)
+	}
 	return c
+}
+
+// injectDefect puts one (very likely) invalid entry or value into an otherwise valid configuration.
+func (g *gen) injectDefect(c *cors.Config) {
+	ins := func(l []string, s string) []string {
+		i := g.n(len(l) + 1)
+		return append(l[:i:i], append([]string{s}, l[i:]...)...)
+	}
+	switch g.n(10) {
+	case 0:
+		c.Methods = ins(c.Methods, pick(g, badMethodPool))
+	case 1, 2:
+		c.RequestHeaders = ins(c.RequestHeaders, pick(g, badReqHdrPool))
+	case 3:
+		c.ResponseHeaders = ins(c.ResponseHeaders, pick(g, badResHdrPool))
+	case 4:
+		c.Origins = ins(c.Origins, g.mutate(g.validPattern()))
+	case 5:
+		c.Origins = ins(c.Origins, "https://"+pick(g, weirdHostPool)+pick(g, portPool))
+	case 6:
+		c.MaxAgeInSeconds = pick(g, []int{-2, 86401, -100, 1 << 40, -(1 << 40)})
+	case 7:
+		c.PreflightSuccessStatus = pick(g, []int{199, 300, -1, 456, 1 << 33, 100, 404, 200 + 256, 204 - 256})
+	case 8:
+		c.PrivateNetworkAccess, c.PrivateNetworkAccessInNoCORSModeOnly = true, true
+	default:
+		if g.p(50) {
+			c.Credentialed = true
+		} else {
+			c.PrivateNetworkAccess = true
+		}
+		switch g.n(3) {
+		case 0:
+			c.Origins = ins(c.Origins, "*")
+		case 1:
+			c.Origins = ins(c.Origins, "http://"+pick(g, []string{"example.com", "a.foo.com:8080", "*.example.org"}))
+			c.DangerouslyTolerateInsecureOrigins = false
+		default:
+			c.Credentialed = true
+			c.ResponseHeaders = ins(c.ResponseHeaders, "*")
+		}
+	}
 }
 
 type kv struct {
